@@ -30,6 +30,8 @@ KEYS += ["a // b", "y", "CONFIG"]
 # text that spells an entity or character reference (encoded once, decoded once), and keys that are XML names outside ASCII
 CONF += ["&amp;", "AT&amp;T", "a &lt; b", "&gt;&gt;", "&quot;q&quot;", "&apos;", "&#65;", "&amp;amp;", "&#x41;&#10;", "%41", "\\u0041", "größe"]
 KEYS += ["größe", "标签", "настройки", "é"]
+# XML names whose later characters are not "word" characters: combining marks, vowel signs, the middle dot
+KEYS += ["\u0928\u093e\u092e", "cafe\u0301", "a\u00b7b"]
 
 
 def inner_keys(t):
@@ -47,7 +49,7 @@ def inner_keys(t):
 def xml_name(k):
     import re
     start = "A-Za-z_\u00C0-\u00D6\u00D8-\u00F6\u00F8-\u02FF\u0370-\u037D\u037F-\u1FFF\u3001-\uD7FF"
-    return isinstance(k, str) and re.match("^[" + start + "][" + start + "0-9.\\-\u00B7]*\\Z", k) is not None
+    return isinstance(k, str) and re.match("^[" + start + "][" + start + "0-9.\\-\u00B7\u0300-\u036F]*\\Z", k) is not None
 
 
 def gen_tree(rng, depth=3, top=True):
@@ -229,7 +231,7 @@ def in_domain(fmt, t):
 
 
 OPTS = {"json": [{}, {"pretty": True}, {"pretty": False}], "yaml": [{}, {"root_key": None}, {"root_key": ""}, {"root_key": "CONFIG"}, {"root_key": "a"}],
-        "xml": [{}, {"root_tag": "config"}, {"root_tag": "x"}, {"root_tag": "item"}], "bson": [{}], "pickle": [{}]}
+        "xml": [{}, {"root_tag": "config"}, {"root_tag": "x"}, {"root_tag": "item"}, {"root_tag": "\u0928\u093e\u092e"}, {"root_tag": "cafe\u0301"}, {"root_tag": "a\u00b7b"}], "bson": [{}], "pickle": [{}]}
 
 
 def scribble(t):
